@@ -76,8 +76,8 @@ Qed.
 (** names an operation mentions *)
 Definition op_name (o : op) : option Z :=
   match o with
-  | OBind n _ | OModifyName _ n _ | ODeleteName _ n | OAdd _ _ n _ _ _ | OUpdate _ _ n _ _ _ _
-  | OUpdateExp _ _ n _ _ | ODelete _ _ n | ODeleteDistinct _ _ n _ | OPurge _ n => Some n
+  | OBind n _ | OModifyName _ n _ | ODeleteName _ n | OAdd _ _ n _ _ _ _ | OUpdate _ _ n _ _ _ _ _
+  | OUpdateExp _ _ n _ _ _ | ODelete _ _ n _ | ODeleteDistinct _ _ n _ _ | OPurge _ n => Some n
   | OBlock _ => None
   end.
 
@@ -161,9 +161,9 @@ Qed.
 (** The universes are respected by histories whose operations stay inside them. *)
 Definition op_ok (accts names : list Z) (o : op) : Prop :=
   match o with
-  | OAdd _ a n _ _ _ | OUpdate _ a n _ _ _ _ => In a accts /\ In n names
-  | OBind n _ | OModifyName _ n _ | ODeleteName _ n | OUpdateExp _ _ n _ _
-  | ODelete _ _ n | ODeleteDistinct _ _ n _ | OPurge _ n => In n names
+  | OAdd _ a n _ _ _ _ | OUpdate _ a n _ _ _ _ _ => In a accts /\ In n names
+  | OBind n _ | OModifyName _ n _ | ODeleteName _ n | OUpdateExp _ _ n _ _ _
+  | ODelete _ _ n _ | ODeleteDistinct _ _ n _ _ | OPurge _ n => In n names
   | OBlock _ => True
   end.
 
@@ -192,6 +192,7 @@ Proof.
     + apply In_remove_key in Hr. apply Hu. tauto.
   - unfold update_attribute in E. match type of E with (if ?b then _ else _) = _ => destruct b end;
       [|discriminate].
+    destruct (sp_inner sp); [discriminate|].
     destruct (find_rec (a, n, ov) (s_recs s)) as [cur|]; [|discriminate].
     destruct (a_type cur =? oty); inversion E; subst.
     intros r. cbn [put del_rec set_store s_recs]. intros [<-|Hr].
@@ -204,12 +205,12 @@ Proof.
     intros r. cbn [set_store s_recs]. intros [<-|Hr].
     + apply (Hu cur Hcur).
     + apply In_remove_key in Hr. apply Hu. tauto.
-  - unfold delete_attribute in E. destruct (may_remove s c n); [|discriminate].
+  - unfold delete_attribute in E. destruct (may_remove_raw s c n sp); [|discriminate].
     match type of E with context [filter ?p (s_recs s)] =>
       destruct (del_filter true p s Hc) as [_ [I2 _]]; destruct (filter p (s_recs s)) end;
       [discriminate|]. injection E as <-. cbn [fold_left] in I2.
     intros r Hr. apply I2 in Hr. apply Hu. tauto.
-  - unfold delete_attribute in E. destruct (may_remove s c n); [|discriminate].
+  - unfold delete_attribute in E. destruct (may_remove_raw s c n sp); [|discriminate].
     match type of E with context [filter ?p (s_recs s)] =>
       destruct (del_filter true p s Hc) as [_ [I2 _]]; destruct (filter p (s_recs s)) end;
       [discriminate|]. injection E as <-. cbn [fold_left] in I2.
